@@ -833,6 +833,7 @@ func (c *VC) assign(st *State, lhs ast.Expr, v *Term) {
 			base := mkField(s, "sl_base")
 			row := c.sel(h, base)
 			wi := c.binop(token.ADD, mkField(s, "sl_off"), i, it)
+			c.guardSliceValue(st, v, u.Elem(), c.sel(row, wi), l.Pos(), text)
 			c.checkWrite(st, hn, base, wi, c.binop(token.ADD, wi, c.idxLit(1), it), l.Pos(), text)
 			st.heaps[hn] = c.name(hn, mkStore(h, base, mkStore(row, wi, v)))
 		case *types.Array:
